@@ -2,9 +2,9 @@ package symgo
 
 import (
 	"fmt"
-	"os"
 	"go/types"
 	"math/big"
+	"os"
 	"sort"
 	"strings"
 	"time"
@@ -31,31 +31,31 @@ type UFCfg struct {
 }
 
 type Config struct {
-	Name      string
-	Harness   *ssa.Function
-	Unwind    int
-	MaxPaths  int
-	TimeoutS  int // per solver query
-	MaxSteps  int
-	Exec      []string // extra package paths / function names executed for real
-	Stubs     map[string]StubKind
-	Nilable   map[string]bool
-	Models    map[string]*ssa.Function
-	UFs       map[string]UFCfg
-	GoPolicy  string           // inline | after | drop | error
-	CtxPolicy string           // never | nondet : behaviour of ctx.Done()
-	Params    map[string]int64 // vsParam values for this tier
-	Pinned    map[string]*big.Int
-	PinnedBytes map[string]string
-	PinChoice []int64
-	InitPkgs  []string
-	NoInit    []string
-	HavocMax  int // max length of havoc'd byte slices
-	WallS     int // wall-clock budget of the whole harness run
+	Name          string
+	Harness       *ssa.Function
+	Unwind        int
+	MaxPaths      int
+	TimeoutS      int // per solver query
+	MaxSteps      int
+	Exec          []string // extra package paths / function names executed for real
+	Stubs         map[string]StubKind
+	Nilable       map[string]bool
+	Models        map[string]*ssa.Function
+	UFs           map[string]UFCfg
+	GoPolicy      string           // inline | after | drop | error
+	CtxPolicy     string           // never | nondet : behaviour of ctx.Done()
+	Params        map[string]int64 // vsParam values for this tier
+	Pinned        map[string]*big.Int
+	PinnedBytes   map[string]string
+	PinChoice     []int64
+	InitPkgs      []string
+	NoInit        []string
+	HavocMax      int  // max length of havoc'd byte slices
+	WallS         int  // wall-clock budget of the whole harness run
 	NoAssumeCheck bool // skip the feasibility query after vsAssume (harnesses with hard sat side)
-	Solver    string
-	Expect    map[string]bool // assertion ids expected to fail (known findings) - informational
-	Tier      string
+	Solver        string
+	Expect        map[string]bool // assertion ids expected to fail (known findings) - informational
+	Tier          string
 }
 
 // ---- results
@@ -81,41 +81,43 @@ type Obligation struct {
 }
 
 type Report struct {
-	Harness        string
-	Paths          int
-	PathsCompleted int
-	PathsAssumeCut int
-	Branches       int
-	Forks          int
-	Merges         int
-	Workers        int
-	Steps          int64
-	Failures       []*Failure
-	Obligations    map[string]*Obligation
-	Covers         map[string]bool
-	CoverWitness   map[string]map[string]string
-	CoverDeclared  map[string]bool
-	UnwindFailures []string
-	Unsupported    []string
-	Unknowns       []string
-	Incomplete     []string
-	FuncsExecuted  map[string]string
-	StubsHit       map[string]int
-	ModelsHit      map[string]int
-	UFsHit         map[string]int
-	Queries        int
-	NSat, NUnsat   int
-	NUnknown       int
-	SolverTime     time.Duration
-	Wall           time.Duration
-	Terms          int
-	Observations   []string
-	Witnesses      []PathWitness
+	Harness          string
+	Paths            int
+	PathsCompleted   int
+	PathsAssumeCut   int
+	Branches         int
+	Forks            int
+	Merges           int
+	PanicChecks      int // symbolic runtime checks (bounds, nil, div) decided by the solver
+	PanicChecksSafe  int // ... of which the failing side was unsat
+	Workers          int
+	Steps            int64
+	Failures         []*Failure
+	Obligations      map[string]*Obligation
+	Covers           map[string]bool
+	CoverWitness     map[string]map[string]string
+	CoverDeclared    map[string]bool
+	UnwindFailures   []string
+	Unsupported      []string
+	Unknowns         []string
+	Incomplete       []string
+	FuncsExecuted    map[string]string
+	StubsHit         map[string]int
+	ModelsHit        map[string]int
+	UFsHit           map[string]int
+	Queries          int
+	NSat, NUnsat     int
+	NUnknown         int
+	SolverTime       time.Duration
+	Wall             time.Duration
+	Terms            int
+	Observations     []string
+	Witnesses        []PathWitness
 	PortfolioQueries int
 	PortfolioTime    time.Duration
 	PortfolioWins    map[string]int
-	InitNotes      []string
-	Samples        []string
+	InitNotes        []string
+	Samples          []string
 }
 
 // ---- control-flow signals (Go panics used for non-local exits)
@@ -788,8 +790,16 @@ func (in *Interp) checkOK(ok *smt.Term, kind string) {
 	if ok.IsTrue() {
 		return
 	}
+	replaying := in.decIdx < len(in.prefix)
 	if !in.branch(ok) {
 		in.raise(kind, nil)
+	}
+	if !replaying && !ok.IsFalse() {
+		// a runtime-check obligation decided by the solver on this path
+		in.Rep.PanicChecks++
+		if n := len(in.decisions); n > 0 && in.decisions[n-1] == 3 {
+			in.Rep.PanicChecksSafe++ // failing side unsat: cannot panic here on this path
+		}
 	}
 }
 
